@@ -1,5 +1,5 @@
 import ExoVerif.Driver.Common
-import ExoVerif.Model.Distribution
+import ExoVerif.Model.DistributionParams
 /- driver for the C17 correspondence.
    ops:  distr.reset
          distr.cfg <distrId> <mintId> <reward> <taxRaw>
@@ -7,19 +7,39 @@ import ExoVerif.Model.Distribution
          distr.bal <supply> <feeCollector> <mint> <distr> <community>
          distr.fee <amt>                      (bank send of an account's coins to the fee collector)
          distr.block <bt> <h> <total> <nvals> { <op> <power> <rate> <found> <nocc> { <staker> <power> }* }*
+         distr.denom <native> <mintDenom>     (native denomination and the genesis MintDenom; without it both are "")
+         distr.mintparams <tx|srv> <denom> <reward|nil> <id>   x/exomint MsgUpdateParams (tx: ValidateBasic first; srv: the
+                                                        handler directly) → ok|rej <denom> <reward> <id> (params in force)
+         distr.distrparams <id> <taxRaw>                x/feedistribution MsgUpdateParams → ok|rej <id> <taxRaw>
+   strings of the two params ops are escaped (`%` = empty, %20 space, %09 tab, %25 percent).
+   The configuration a block runs under is `cfgOf native params` (Model/DistributionParams.lean): it follows every
+   accepted parameter update.
 -/
 namespace ExoVerif.Driver.Distribution
 open ExoVerif ExoVerif.Distr ExoVerif.Driver
 
 structure DS where
-  cfg : Cfg
+  native : String
+  params : Params
   es : List Epochs.EpochInfo
   st : Option St
 deriving Inhabited
 
+/-- the configuration in force -/
+def DS.cfg (d : DS) : Cfg := cfgOf d.native d.params
+
 def emptyPool : Pool := { community := 0, commission := [], rewards := [], outstanding := [] }
-def init : DS := { cfg := { distrId := "", mintId := "", reward := 0, tax := 0 }, es := [],
-                   st := some { supply := 0, fc := 0, mint := 0, distr := 0, pool := emptyPool } }
+def init : DS := { native := "", params := { distr := { id := "", tax := 0 }, mint := { denom := "", reward := 0, id := "" } },
+                   es := [], st := some { supply := 0, fc := 0, mint := 0, distr := 0, pool := emptyPool } }
+
+def unesc (s : String) : String :=
+  if s == "%" then "" else ((s.replace "%20" " ").replace "%09" "\t").replace "%25" "%"
+
+def esc (s : String) : String :=
+  if s == "" then "%" else ((s.replace "%" "%25").replace " " "%20").replace "\t" "%09"
+
+def showMint (m : MintParams) : String := s!"{esc m.denom} {m.reward} {esc m.id}"
+def showDistr (p : DistrParams) : String := s!"{esc p.id} {p.tax}"
 
 def insertSorted (x : String × Int) : List (String × Int) → List (String × Int)
   | [] => [x]
@@ -66,8 +86,26 @@ def step (d : DS) (w : List String) : DS × String :=
   | "distr.note" :: _ => (d, "ok")
   | ["distr.cfg", dId, mId, rw, tx] =>
     match parseInt? rw, parseInt? tx with
-    | some rw, some tx => ({ d with cfg := { distrId := dId, mintId := mId, reward := rw, tax := tx } }, "ok")
+    | some rw, some tx =>
+      ({ d with params := { distr := { id := dId, tax := tx }, mint := { denom := d.native, reward := rw, id := mId } } }, "ok")
     | _, _ => (d, "bad-op")
+  | ["distr.denom", native, mintDenom] =>
+    ({ d with native := native, params := { d.params with mint := { d.params.mint with denom := mintDenom } } }, "ok")
+  | ["distr.mintparams", path, denom, rw, id] =>
+    let reward? : Option (Option Int) := if rw == "nil" then some none else (parseInt? rw).map some
+    match reward? with
+    | some reward =>
+      match mintDeliver (path == "tx") (knownId d.es) d.params.mint { denom := unesc denom, reward := reward, id := unesc id } with
+      | some mp => ({ d with params := { d.params with mint := mp } }, "ok " ++ showMint mp)
+      | none => (d, "rej " ++ showMint d.params.mint)
+    | none => (d, "bad-op")
+  | ["distr.distrparams", id, tx] =>
+    match parseInt? tx with
+    | some tx =>
+      match distrUpdateParams (knownId d.es) d.params.distr { id := unesc id, tax := tx } with
+      | some dp => ({ d with params := { d.params with distr := dp } }, "ok " ++ showDistr dp)
+      | none => (d, "rej " ++ showDistr d.params.distr)
+    | none => (d, "bad-op")
   | ["distr.epoch", id, st, dur, cur, curSt, started, hgt] =>
     match parseInt? st, parseInt? dur, parseInt? cur, parseInt? curSt, parseInt? hgt with
     | some st, some dur, some cur, some curSt, some hgt =>
